@@ -21,7 +21,7 @@ import numpy as np
 
 from ..core import Violation, feq, short
 
-RUNS = {"quick": 1500, "thorough": 100000}
+RUNS = {"quick": 8000, "thorough": 200000}
 SELFCHECK = {"quick": 16, "thorough": 48}
 CHUNK = 50
 LEVEL = "exploration"
